@@ -762,7 +762,12 @@ class Evaluator(object):
             if self.merge_ifs and len(l1) == 1 and len(l2) == 1 and l1[0].ctrl == l2[0].ctrl:
                 return [self._merge(path, c, l1[0], l2[0])]
             return l1 + l2
-        if isinstance(st, (ast.Pass, ast.Assert, ast.Import, ast.ImportFrom, ast.Global, ast.Nonlocal)):
+        if isinstance(st, ast.Assert):
+            if self.record:
+                cv = self.ev(st.test, path)
+                self._event("assert", path, st, value=cv if isinstance(cv, Rat) else self._opaque(st.test, path))
+            return [path]
+        if isinstance(st, (ast.Pass, ast.Import, ast.ImportFrom, ast.Global, ast.Nonlocal)):
             return [path]
         if isinstance(st, ast.Break):
             path.ctrl = "break"
@@ -771,9 +776,17 @@ class Evaluator(object):
             path.ctrl = "continue"
             return [path]
         if isinstance(st, ast.Raise):
+            if self.record and st.exc is not None:
+                self._event("raise", path, st, value=self._opaque(st.exc, path))
             self.outcomes.append(Outcome(path.conds, None, "raise", st))
             return []
         if isinstance(st, ast.With):
+            if self.record:
+                for it_ in st.items:
+                    cv = self.ev(it_.context_expr, path)
+                    self._event("with", path, st, value=cv if isinstance(cv, Rat) else self._opaque(it_.context_expr, path))
+                    if it_.optional_vars is not None and isinstance(cv, Rat):
+                        self.assign(it_.optional_vars, cv, path, st)
             return self.exec_block(st.body, [path])
         if isinstance(st, ast.For) and self.loop_mode in ("body_once", "unroll2"):
             it = self.ev(st.iter, path)
